@@ -11,6 +11,9 @@ ALAC = (0x70, 0x71, 0x72, 0x73)
 
 
 def srate2blocksize(p):
+    # the library computes samplerate * channels in a C int: from 2^31 on the product wraps (negative -> smallest block). Any block size is
+    # a legal WAV ADPCM file; what matters for C04/C11 is that writer, header and reader agree on it.
+    p = ((p + 2 ** 31) % 2 ** 32) - 2 ** 31
     return 256 if p < 12000 else 512 if p < 23000 else 1024 if p < 44000 else 2048
 
 
